@@ -213,7 +213,12 @@ class SymDB:
 
     def add(self, tname, present=True, **vals):
         t = self.metadata.tables[tname]
-        full = {c.name: None for c in t.columns}
+        full = {}
+        for c in t.columns:
+            d = c.default
+            full[c.name] = None if d is None else (
+                d.arg if d.is_scalar else d.arg(None) if d.is_callable
+                else None)
         for k in vals:
             if k not in full:
                 raise KeyError(k)
@@ -705,29 +710,22 @@ class Evaluator:
 # --------------------------------------------------------------------------
 # results
 
-class ResultRow(tuple):
-    def __new__(cls, vals, names):
-        o = super().__new__(cls, vals)
-        o._names = names
-        return o
+from sqlalchemy.engine.result import SimpleResultMetaData
+from sqlalchemy.engine.row import Row as _SARow
 
-    def __getattr__(self, k):
-        if k.startswith('__'):
-            raise AttributeError(k)
-        try:
-            return self[self._names.index(k)]
-        except ValueError:
-            raise AttributeError(k)
+_MD = {}
 
-    @property
-    def _mapping(self):
-        return dict(zip(self._names, self))
 
-    def _asdict(self):
-        return dict(zip(self._names, self))
-
-    def keys(self):
-        return list(self._names)
+def ResultRow(vals, names):
+    """A real sqlalchemy Row (so isinstance checks, ._mapping, attribute and
+    index access behave exactly as with a real result)."""
+    key = tuple(names)
+    md = _MD.get(key)
+    if md is None:
+        md = _MD[key] = SimpleResultMetaData(
+            [n if n is not None else '_anon%d' % i
+             for i, n in enumerate(names)])
+    return _SARow(md, md._processors, md._key_to_index, tuple(vals))
 
 
 def materialize(v):
@@ -815,6 +813,7 @@ class SymQuery(Query):
         return None
 
     def _result(self):
+        self._ss().flush()      # Session autoflush=True (oslo.db default)
         return self._ss().execute(self.statement)
 
     def all(self):
@@ -851,18 +850,21 @@ class SymQuery(Query):
 
     def count(self):
         ss = self._ss()
+        ss.flush()
         ss._account(self.statement)
         ev = Evaluator(ss.view)
         rows = ev.eval_select(self.statement)
         return count_true([c for c, _ in rows])
 
     def delete(self, synchronize_session=None):
+        self._ss().flush()
         stmt = sa.delete(sa.inspect(self._entity_model()).local_table)
         for w in self.statement._where_criteria:
             stmt = stmt.where(w)
         return self._ss().execute(stmt).rowcount
 
     def update(self, values, synchronize_session=None):
+        self._ss().flush()
         t = sa.inspect(self._entity_model()).local_table
         stmt = sa.update(t).values(**values)
         for w in self.statement._where_criteria:
@@ -968,12 +970,19 @@ class SymSession:
         return [c.name for c in obj.__table__.columns]
 
     def _hydrate(self, model, row):
-        obj = model()
         names = [c.name for c in model.__table__.columns]
-        for n, v in zip(names, row):
-            setattr(obj, n, v)
-        pk = {c.name: getattr(obj, c.name)
+        vals = dict(zip(names, row))
+        pk = {c.name: vals[c.name]
               for c in model.__table__.primary_key.columns}
+        # identity map, as in a real Session
+        for obj, opk, snap in self._persistent.values():
+            if type(obj) is model and all(
+                    not isinstance(v, Sym) and opk.get(k) == v
+                    for k, v in pk.items()):
+                return obj
+        obj = model()
+        for n, v in vals.items():
+            setattr(obj, n, v)
         self._persistent[id(obj)] = (
             obj, pk, {n: getattr(obj, n) for n in names})
         return obj
@@ -1208,10 +1217,13 @@ class SymSession:
     def _check_unique(self, t, vals):
         from oslo_db import exception as db_exc
         from sqlalchemy import UniqueConstraint
-        keys = [[c.name for c in t.primary_key.columns]]
-        for con in t.constraints:
+        keys = []
+        for con in sorted(t.constraints, key=lambda c: str(c.name)):
             if isinstance(con, UniqueConstraint):
                 keys.append([c.name for c in con.columns])
+        # SQLite reports the most recently created unique index first when
+        # several are violated at once; primary key first of all
+        keys = [[c.name for c in t.primary_key.columns]] + keys[::-1]
         for cols in keys:
             if any(vals[c] is None for c in cols):
                 continue
